@@ -241,13 +241,16 @@ def r13_3(chk, cr, ev, q):
            idx["pos_val"].key() == "self.to_fractional($cart_asym_pos)" and
            [v for k, v in ev.defs.items() if k[1] == "cart_asym_pos"][0].key() == "self.to_cartesian(self.asymmetric_unit.positions)",
            found=str(idx["pos_val"]))
+    # the value stored as the new cell (directly, or through a temporary): UnitCell(T . old direct) with T the matrix chosen by the setting
+    ucv = idx["uc_val"]
     newuc = [v for k, v in ev.defs.items() if k[1] == "new_uc"]
-    want = matmul(P.atom(("local", "T", 0)) if False else P.name("$T"), P.name("x"))
-    okuc = bool(newuc) and newuc[0].as_atom() and call_name(newuc[0].as_atom()).endswith("UnitCell") and \
-        newuc[0].as_atom()[2][0].key() in ("(matmul ((ite (eq 'R' self.space_group.choice) $T $T'1) self.unit_cell.direct))",) or \
-        (bool(newuc) and "matmul" in newuc[0].key() and newuc[0].key().endswith("self.unit_cell.direct)))") and "$T" in newuc[0].key())
-    chk.ob("R13.3", CR, q, "the new cell is T . (old direct matrix)", bool(okuc) and idx["uc_val"].key() == "$new_uc",
-           found=str(newuc[0]) if newuc else None)
+    if ucv.key().startswith("$new_uc") and newuc:
+        ucv = newuc[0]
+    ua = ucv.as_atom()
+    arg = ua[2][0] if ua and ua[0] == "call" and (call_name(ua) or "").endswith("UnitCell") and len(ua[2]) == 1 else None
+    aa = arg.as_atom() if arg is not None else None
+    okuc = bool(aa and aa[0] == "matmul" and len(aa[1]) == 2 and aa[1][1].key() == "self.unit_cell.direct" and "$T" in aa[1][0].key())
+    chk.ob("R13.3", CR, q, "the new cell is T . (old direct matrix)", okuc, found=str(ucv)[:160])
     sg = idx["sg_val"].as_atom()
     oksg = bool(sg and call_name(sg).endswith("SpaceGroup") and sg[2][0].key() == "self.space_group.international_tables_number"
                 and dict(sg[3]).get("choice") is not None and dict(sg[3])["choice"].key() == ev.param_names[1])
